@@ -22,6 +22,8 @@ SUM = z3.Function("SUM", z3.IntSort(), IdxArr, z3.RealSort())
 
 
 class NArr(E.SymSeq):
+    is_array = True       # numpy semantics: `a += b` is element-wise addition, not list concatenation
+
     def __init__(self, length, elem, label="arr"):
         self.length = length
         self.elem = elem
